@@ -145,3 +145,15 @@ Proof.
     apply Forall_nil.
   - vm_compute. repeat split; reflexivity.
 Qed.
+
+(* the placement of the target's control connection does not enter [bcalls]; the variant that skips the publication when it
+   is on the starting node leaves a WAITING tunnel unroutable from the other node *)
+Lemma skip_local_target_refuted :
+  let c := cfg_hybrid true 30000000000 in
+  let ctl : nat -> Z -> bool := fun n _ => Nat.eqb n 0 in
+  ex_lookup c (ex_final c (init ex_gstr) (fst (bcalls ex_ix0 (BStart 0 ex_rec)))) 1 (w_tunnel ex_rec)
+    = ROk (stamp ex_rec 0 30000000000)
+  /\ snd (bcalls_skip_local ctl ex_ix0 (BStart 0 ex_rec)) 0%nat (w_tunnel ex_rec) = true
+  /\ ex_lookup c (ex_final c (init ex_gstr) (fst (bcalls_skip_local ctl ex_ix0 (BStart 0 ex_rec)))) 1 (w_tunnel ex_rec)
+    = RNotFound.
+Proof. vm_compute. repeat split; reflexivity. Qed.
